@@ -5,6 +5,13 @@ HERE = os.path.dirname(os.path.dirname(os.path.abspath(__file__)))
 ALL = [f"C{i:02d}" for i in range(1, 19)]
 # property -> (technique, level text, level note, design_ref)
 CHECKS = {
+ "C17": ("runtime reference-model monitor: loss values recomputed from the public log_prob / sample_and_log_prob in NumPy; the "
+         "stick-the-landing gradient checked against plain gradient minus an independently computed score term; contrastive sets observed "
+         "at the public log_prob boundary of a harness tag distribution (host callbacks) and the softmax cross-entropy recomputed from them",
+         "Exploration: ~85 maximum-likelihood, 60 ELBO (value + gradient identity on 200 gradient leaves) and 70 contrastive evaluations "
+         "(every n_contrastive for batches 2-12, 2.5e3 observed log_prob events) per quick run; thorough repeats 12x over all combinations.",
+         "Value tolerance 1e-10 relative, gradient identity 1e-6; rows carry unique tags so the observed sets are unambiguous.",
+         "DESIGN.md 4/C17"),
  "C14": ("runtime differential monitor with the eager execution as oracle: every method of every structure under eqx.filter_jit (bound "
          "method and model-as-argument), jax.vmap vs Python loop, repeated calls, a second model through the same compiled function "
          "(stale constants), pytree flatten/unflatten and equinox leaf serialisation into a model built from another key",
